@@ -275,6 +275,33 @@ pub struct Gfa {
     /// ( u o1 v o2 overlap ) of the L lines
     pub links: Vec<V>,
 }
+/// lenient reading of the segment lines only: ( id sequence ) per `S` line; None when a sequence is not ACGT text
+fn segments_of(text: &str) -> Option<V> {
+    let mut segs = Vec::new();
+    for line in text.lines() {
+        let f: Vec<&str> = line.split('\t').collect();
+        if f.first() != Some(&"S") {
+            continue;
+        }
+        if f.len() < 3 {
+            return None;
+        }
+        let id: usize = f[1].parse().ok()?;
+        let mut bs = Vec::new();
+        for c in f[2].bytes() {
+            bs.push(match c {
+                b'A' => 0u8,
+                b'C' => 1,
+                b'G' => 2,
+                b'T' => 3,
+                _ => return None,
+            });
+        }
+        segs.push(l(vec![nu(id), dna(&bs)]));
+    }
+    Some(l(segs))
+}
+
 pub fn parse_gfa(text: &str) -> Option<Gfa> {
     let mut records = Vec::new();
     let mut links = Vec::new();
@@ -409,12 +436,12 @@ fn export_cases<K: Kmer>(out: &mut Out, rng: &mut Rng, g: &DebruijnGraph<K, u16>
     }));
     let gfa = gfa_text.as_ref().and_then(|t| parse_gfa(t));
     let g_in = l(vec![nu(k), st.clone(), nodes.clone()]);
+    // the S records as written (whatever else the text contains): id and sequence of every segment line, in order
+    out.case("s.gfa_segments", g_in.clone(), opt(gfa_text.as_ref().and_then(|t| segments_of(t))));
     out.case("x.gfa", g_in.clone(), opt(gfa.as_ref().map(|x| l(x.records.clone()))));
     if let Some(x) = &gfa {
         out.case("chk.gfa_sound", l(vec![nu(k), etab.clone(), l(x.links.clone())]), b(true));
         out.case("chk.gfa_complete_once", l(vec![pal.clone(), etab.clone(), l(x.links.clone())]), b(true));
-    } else {
-        out.case("chk.gfa_sound", l(vec![]), V::Bot);
     }
     if symmetric {
         out.case("x.gfa_hyp", l(vec![pal.clone(), etab.clone()]), b(true));
@@ -436,6 +463,7 @@ fn export_cases<K: Kmer>(out: &mut Out, rng: &mut Rng, g: &DebruijnGraph<K, u16>
     }));
     let _ = std::fs::remove_file(&path);
     let tg = tagged.as_ref().and_then(|t| parse_gfa(t));
+    out.case("s.gfa_segments", g_in.clone(), opt(tagged.as_ref().and_then(|t| segments_of(t))));
     out.case(
         "x.gfa_tags",
         l(vec![nu(k), st.clone(), nodes.clone(), l(tags)]),
